@@ -1082,6 +1082,14 @@ class KnitPacker(Packer):
             new_pack.abort()
             return None
         self.pb.update("Finishing pack", 5)
+        new_pack.finish_content()
+        if new_pack._hash.hexdigest() in self._pack_collection._names:
+            # The repacked content is byte-identical to a pack that is
+            # already listed (its name is the content hash): finishing it
+            # would rewrite that pack's live indices in place and allocate()
+            # would then refuse the duplicate name.  Nothing to do.
+            new_pack.abort()
+            return None
         new_pack.finish()
         self._pack_collection.allocate(new_pack)
         return new_pack
